@@ -8,6 +8,7 @@
   spec.select <sel> <maxpages> specSelect on the model's page list          -> same form
   render <rot> <box4> <tx> <ty>      model: LTPage.bbox + glyph matrix      -> 10 rationals
   spec.render <rot> <box4> <tx> <ty> specification of the same              -> 10 rationals | outside-domain
+  xmlbox <rot> <rotation> <box4>     model: LTPage.bbox under extract_text_to_fp(rotation=) -> 4 rationals
   rotate <r>                   norm_rotate                                  -> integer
 
   object syntax:  atoms i:<int> r:<p/q> n:<name> R:<n> null ; arrays [ a a ] ; flat dictionaries { k a k a } ;
@@ -130,6 +131,10 @@ def step (st : St) (line : String) : St × String :=
         (st, showRender (specRender rot (x0, y0, x1, y1) (tx, ty)))
       else (st, "outside-domain")
     | _, _ => (st, "bad-op")
+  | ["xmlbox", rot, rotation, x0, y0, x1, y1] =>
+    match rot.toInt?, rotation.toInt?, [x0, y0, x1, y1].mapM ratOfString with
+    | some rot, some rotation, some [x0, y0, x1, y1] => (st, showBox (rotatedBox rot rotation (x0, y0, x1, y1)))
+    | _, _, _ => (st, "bad-op")
   | ["rotate", r] =>
     match r.toInt? with
     | some r => (st, toString (norm_rotate r))
